@@ -98,6 +98,9 @@ def ops_spec(ops):
                             tgt["parameters"].append(p)
                 else:
                     tgt[k] = v
+    return s
+
+
 # ---- C17: one struct `T` with the member under test (`mem`) and an optional sibling (`z`) ----
 def dflt_member_schema(m):
     """m: {kind:{scalar:{ty,format?}}|{enum:[..]}|{object:[..]}, ref?, array?, nullable?, default?, const?, enum1?}"""
